@@ -7,6 +7,7 @@
 import Pulsar.ExtractedFns
 import Pulsar.Proofs.GoSrcBase
 import Pulsar.Proofs.Runtime
+import Pulsar.Proofs.DecodeGood
 namespace Pulsar
 open Pulsar Pulsar.Timepb
 
@@ -314,5 +315,236 @@ theorem src_Skip_loop4 (d : Bytes) (hd : d.length < 4611686018427387904) :
             rw [show i + 1 + n - (k + 1) = i + n - k from by omega]
           | err e => rfl
           | panic => rfl
+
+
+/-- the bytes left by the model's varint reader are a suffix of its input -/
+theorem skipReadVarint_rest (bs : Bytes) : ∀ k acc v n rest,
+    skipReadVarint k acc bs = .ok (v, n, rest) → rest = bs.drop (n - k) := by
+  induction bs with
+  | nil => intro k acc v n rest h; simp [skipReadVarint] at h
+  | cons b tl ih =>
+    intro k acc v n rest h
+    rw [skipReadVarint] at h
+    split at h
+    · simp at h
+    · simp only [] at h
+      split at h
+      · simp only [Res.ok.injEq, Prod.mk.injEq] at h
+        obtain ⟨_, rfl, rfl⟩ := h
+        simp
+      · split at h
+        · simp at h
+        · have hc := (skipReadVarint_count _ _ _ _ _ _ h).2
+          have := ih _ _ _ _ _ h
+          rw [this, show n - k = (n - (k + 1)) + 1 from by omega]
+          simp
+
+def fin : Res (Sum (Int × Int) Int) → Res Int
+  | .ok (.inr r) => .ok r
+  | .ok (.inl _) => .err .eof
+  | .err e => .err e
+  | .panic => .panic
+
+def natRes : Res Nat → Res Int
+  | .ok n => .ok (n : Int)
+  | .err e => .err e
+  | .panic => .panic
+
+theorem loop2_start (d : Bytes) (hd : d.length < 4611686018427387904) (i : Nat) (hi : i ≤ d.length) :
+    Xf.runtime_Skip_loop2 11 d (d.length : Int) (i : Int) 0 0 = lift2 i 0 (skipReadVarint 0 0 (d.drop i)) := by
+  have := src_Skip_loop2 d hd _ i 0 0 rfl hi (by omega) (by simp)
+  simpa using this
+
+theorem loop3_start (d : Bytes) (hd : d.length < 4611686018427387904) (i : Nat) (hi : i ≤ d.length) :
+    Xf.runtime_Skip_loop3 11 d (d.length : Int) (i : Int) 0 = lift3 i 0 (skipReadVarint 0 0 (d.drop i)) := by
+  have := src_Skip_loop3 d hd _ i 0 0 rfl hi (by omega)
+  simpa using this
+
+theorem loop4_start (d : Bytes) (hd : d.length < 4611686018427387904) (i : Nat) (hi : i ≤ d.length) :
+    Xf.runtime_Skip_loop4 11 d (d.length : Int) (i : Int) 0 0 = lift4 i 0 (skipReadVarint 0 0 (d.drop i)) := by
+  have := src_Skip_loop4 d hd _ i 0 0 rfl hi (by omega) (by simp)
+  have e : wrap64 ((0 : Nat) : Int) = 0 := by decide
+  rw [e] at this
+  simpa using this
+
+
+theorem fin_bind {α : Type} (r : Res α) (g : α → Res (Sum (Int × Int) Int)) :
+    fin (r >>= g) = match r with | .ok a => fin (g a) | .err e => .err e | .panic => .panic := by
+  cases r <;> rfl
+
+/-- what follows the `switch` in one iteration of the outer loop, given the induction hypothesis for the next one -/
+theorem skip_tail (d : Bytes) (f : Nat)
+    (ih : ∀ (i depth : Nat), d.length - i ≤ f → depth ≤ i →
+      fin (Xf.runtime_Skip_loop1 (f + 1) d (d.length : Int) (depth : Int) (i : Int)) = natRes (skipLoop f (d.drop i) i depth))
+    (c2 depth2 : Nat) (hc : c2 < 9223372036854775808) (hfuel : d.length - c2 ≤ f) (hdep : depth2 ≤ c2) :
+    fin (if decide ((c2 : Int) < 0) = true then Res.err Err.invalidLength
+         else if decide ((depth2 : Int) = 0) = true then pure (Sum.inr (c2 : Int))
+         else Xf.runtime_Skip_loop1 (f + 1) d (d.length : Int) (depth2 : Int) (c2 : Int))
+      = natRes (if c2 ≥ 9223372036854775808 then Res.err Err.invalidLength
+                else if depth2 = 0 then Res.ok c2 else skipLoop f (d.drop c2) c2 depth2) := by
+  have h1 : ¬ ((c2 : Int) < 0) := by omega
+  have h2 : ¬ (c2 ≥ 9223372036854775808) := by omega
+  simp only [h1, decide_false, h2, if_false, Bool.false_eq_true]
+  by_cases hz : depth2 = 0
+  · subst hz; simp [fin, natRes]
+  · have h3 : ¬ ((depth2 : Int) = 0) := by omega
+    simp only [h3, decide_false, hz, if_false, Bool.false_eq_true]
+    exact ih c2 depth2 hfuel hdep
+
+set_option maxRecDepth 100000 in
+theorem src_Skip_loop1 (d : Bytes) (hd : d.length < 4611686018427387904) :
+    ∀ (f i depth : Nat), d.length - i ≤ f → depth ≤ i →
+    fin (Xf.runtime_Skip_loop1 (f + 1) d (d.length : Int) (depth : Int) (i : Int))
+      = natRes (skipLoop f (d.drop i) i depth) := by
+  intro f
+  induction f with
+  | zero =>
+    intro i depth hf hdep
+    have hge : d.length ≤ i := by omega
+    unfold Xf.runtime_Skip_loop1
+    have h1 : ¬ ((i : Int) < (d.length : Int)) := by omega
+    simp [h1, fin, skipLoop, natRes]
+  | succ f ih =>
+    intro i depth hf hdep
+    by_cases hlt : i < d.length
+    · unfold Xf.runtime_Skip_loop1
+      rw [skipLoop_succ]
+      have h1 : ((i : Int) < (d.length : Int)) := by omega
+      have hne : d.drop i ≠ [] := by
+        intro h; have := drop_nil_of_ge h; omega
+      simp only [h1, decide_true, if_true, hne, if_false, loop2_start d hd i (by omega)]
+      rcases hT : skipReadVarint 0 0 (d.drop i) with ⟨wire, n, rest1⟩ | e | _
+      · show fin (_ >>= _) = _
+        rw [show lift2 i 0 (Res.ok (wire, n, rest1)) = Res.ok (Sum.inl (((i + n - 0 : Nat) : Int), 7 * (n - 1), wire)) from rfl, Res.bind_ok]
+        dsimp only []
+        obtain ⟨hcnt, hnpos⟩ := skipReadVarint_count _ _ _ _ _ _ hT
+        have hrest := skipReadVarint_rest _ _ _ _ _ _ hT
+        simp only [Nat.sub_zero, Nat.zero_add, List.length_drop, List.drop_drop] at hcnt hrest
+        have hc1 : i + n ≤ d.length := by omega
+        subst hrest
+        have hw8 : wire &&& 7 = wire % 8 := Nat.and_two_pow_sub_one_eq_mod wire 3
+        have hwr : wrap64 ((wire % 8 : Nat) : Int) = ((wire % 8 : Nat) : Int) := wrap64_id (by omega) (by omega)
+        rw [hw8, hwr]
+        clear hwr hw8
+        have hwlt : wire % 8 < 8 := Nat.mod_lt _ (by decide)
+        generalize wire % 8 = w at hwlt ⊢
+        have hsub : ((i + n - 0 : Nat) : Int) = ((i + n : Nat) : Int) := by simp
+        have hw : w = 0 ∨ w = 1 ∨ w = 2 ∨ w = 3 ∨ w = 4 ∨ w = 5 ∨ w = 6 ∨ w = 7 := by omega
+        rcases hw with rfl | rfl | rfl | rfl | rfl | rfl | rfl | rfl
+        · -- wire type 0: a varint value is skipped
+          rw [show ((0 : Nat) : Int) = 0 from rfl]
+          simp only [hsub, skipAfter, loop3_start d hd (i + n) hc1, Int.reduceEq, Nat.reduceEqDiff, decide_false, decide_true,
+            Bool.false_eq_true, if_false, if_true, List.drop_drop]
+          cases hV : skipReadVarint 0 0 (d.drop (i + n)) with
+          | err e => simp [lift3, fin, natRes]
+          | panic => simp [lift3, fin, natRes]
+          | ok x =>
+            obtain ⟨v, m, r⟩ := x
+            obtain ⟨hcnt2, hmpos⟩ := skipReadVarint_count _ _ _ _ _ _ hV
+            have hrest2 := skipReadVarint_rest _ _ _ _ _ _ hV
+            simp only [Nat.sub_zero, Nat.zero_add, List.length_drop, List.drop_drop] at hcnt2 hrest2
+            subst hrest2
+            simp only [lift3, Res.bind_ok, Nat.sub_zero]
+            exact skip_tail d f ih (i + n + m) depth (by omega) (by omega) (by omega)
+        · -- wire type 1: eight bytes
+          have e8 : wrap64 (((i + n : Nat) : Int) + 8) = ((i + n + 8 : Nat) : Int) := by
+            rw [wrap64_id (by omega) (by omega)]; omega
+          rw [show ((1 : Nat) : Int) = 1 from rfl]
+          simp only [hsub, e8, skipAfter, Int.reduceEq, Nat.reduceEqDiff, decide_false, decide_true,
+            Bool.false_eq_true, if_false, if_true, List.drop_drop]
+          clear e8
+          exact skip_tail d f ih (i + n + 8) depth (by omega) (by omega) (by omega)
+        · -- wire type 2: a length and that many bytes
+          rw [show ((2 : Nat) : Int) = 2 from rfl]
+          simp only [hsub, skipAfter, loop4_start d hd (i + n) hc1, Int.reduceEq, Nat.reduceEqDiff, decide_false, decide_true,
+            Bool.false_eq_true, if_false, if_true, List.drop_drop]
+          cases hV : skipReadVarint 0 0 (d.drop (i + n)) with
+          | err e => simp [lift4, fin, natRes]
+          | panic => simp [lift4, fin, natRes]
+          | ok x =>
+            obtain ⟨len, m, r⟩ := x
+            obtain ⟨hcnt2, hmpos⟩ := skipReadVarint_count _ _ _ _ _ _ hV
+            have hrest2 := skipReadVarint_rest _ _ _ _ _ _ hV
+            have hlen64 := PU.skipReadVarint_lt _ _ _ _ _ _ hV
+            simp only [Nat.sub_zero, Nat.zero_add, List.length_drop, List.drop_drop] at hcnt2 hrest2
+            subst hrest2
+            rw [show lift4 (i + n) 0 (Res.ok (len, m, List.drop (i + n + m) d))
+                = Res.ok (Sum.inl (((i + n + m : Nat) : Int), wrap64 (len : Int), 7 * (m - 1))) from rfl, Res.bind_ok]
+            dsimp only []
+            by_cases hneg : len ≥ 9223372036854775808
+            · have hl : wrap64 (len : Int) < 0 := by
+                rw [wrap64_hi (by omega) (by omega)]; omega
+              rw [if_pos (decide_eq_true hl), if_pos hneg]; rfl
+            · have hl : wrap64 (len : Int) = (len : Int) := wrap64_id (by omega) (by omega)
+              have hl0 : ¬ ((len : Int) < 0) := by clear hl; omega
+              rw [hl, if_neg (mt of_decide_eq_true hl0), if_neg hneg]
+              dsimp only []
+              by_cases hbig : i + n + m + len ≥ 9223372036854775808
+              · have hw2 : wrap64 (((i + n + m : Nat) : Int) + (len : Int)) < 0 := by
+                  clear hl; rw [wrap64_hi (by omega) (by omega)]; omega
+                rw [if_pos (decide_eq_true hw2), if_pos hbig]; rfl
+              · have hw2 : wrap64 (((i + n + m : Nat) : Int) + (len : Int)) = ((i + n + m + len : Nat) : Int) := by
+                  clear hl; rw [wrap64_id (by omega) (by omega)]; omega
+                rw [hw2]
+                clear hw2 hl
+                have := skip_tail d f ih (i + n + m + len) depth (by omega) (by omega) (by omega)
+                rw [List.drop_drop]
+                exact this
+        · -- wire type 3: a group starts
+          have ed : wrap64 ((depth : Int) + 1) = ((depth + 1 : Nat) : Int) := by
+            rw [wrap64_id (by omega) (by omega)]; omega
+          rw [show ((3 : Nat) : Int) = 3 from rfl]
+          simp only [hsub, ed, skipAfter, Int.reduceEq, Nat.reduceEqDiff, decide_false, decide_true,
+            Bool.false_eq_true, if_false, if_true, List.drop_drop]
+          clear ed
+          exact skip_tail d f ih (i + n) (depth + 1) (by omega) (by omega) (by omega)
+        · -- wire type 4: a group ends
+          rw [show ((4 : Nat) : Int) = 4 from rfl]
+          simp only [hsub, skipAfter, Int.reduceEq, Nat.reduceEqDiff, decide_false, decide_true,
+            Bool.false_eq_true, if_false, if_true, List.drop_drop]
+          by_cases hz : depth = 0
+          · subst hz; simp [fin, natRes]
+          · have hz' : ¬ ((depth : Int) = 0) := by omega
+            have ed : wrap64 ((depth : Int) - 1) = ((depth - 1 : Nat) : Int) := by
+              rw [wrap64_id (by omega) (by omega)]; omega
+            simp only [hz, hz', ed, decide_false, if_false, Bool.false_eq_true]
+            exact skip_tail d f ih (i + n) (depth - 1) (by omega) (by omega) (by omega)
+        · -- wire type 5: four bytes
+          have e4 : wrap64 (((i + n : Nat) : Int) + 4) = ((i + n + 4 : Nat) : Int) := by
+            rw [wrap64_id (by omega) (by omega)]; omega
+          rw [show ((5 : Nat) : Int) = 5 from rfl]
+          simp only [hsub, e4, skipAfter, Int.reduceEq, Nat.reduceEqDiff, decide_false, decide_true,
+            Bool.false_eq_true, if_false, if_true, List.drop_drop]
+          clear e4
+          exact skip_tail d f ih (i + n + 4) depth (by omega) (by omega) (by omega)
+        · rw [show ((6 : Nat) : Int) = 6 from rfl]
+          simp [skipAfter, fin, natRes]
+        · rw [show ((7 : Nat) : Int) = 7 from rfl]
+          simp [skipAfter, fin, natRes]
+      · simp [lift2, fin, natRes]
+      · simp [lift2, fin, natRes]
+    · have hge : d.length ≤ i := by omega
+      unfold Xf.runtime_Skip_loop1
+      have h1 : ¬ ((i : Int) < (d.length : Int)) := by omega
+      have hnil : d.drop i = [] := List.drop_eq_nil_of_le hge
+      rw [skipLoop_succ]
+      simp [h1, fin, natRes, hnil]
+
+/-- **`runtime.Skip` as written in the Go source is the model `skip`**, outcome for outcome (value, which error,
+    never a panic), for every input shorter than 2^62 bytes. -/
+theorem src_Skip (d : Bytes) (hd : d.length < 4611686018427387904) :
+    Xf.runtime_Skip d = natRes (skip d) := by
+  have h := src_Skip_loop1 d hd d.length 0 0 (by omega) (by omega)
+  simp only [List.drop_zero] at h
+  unfold Xf.runtime_Skip skip
+  rw [← h]
+  show (Xf.runtime_Skip_loop1 (d.length + 1) d (d.length : Int) 0 0 >>= _) = _
+  rw [show ((0 : Nat) : Int) = 0 from rfl]
+  cases Xf.runtime_Skip_loop1 (d.length + 1) d (d.length : Int) 0 0 with
+  | ok x => cases x with
+    | inl st => obtain ⟨a, b⟩ := st; rfl
+    | inr r => rfl
+  | err e => rfl
+  | panic => rfl
 
 end Pulsar
